@@ -8,7 +8,7 @@ byte-level chunkings; buffering is measured on the real decoder and helpers with
 import random
 import sys
 
-from .. import tlc, graph, common
+from .. import servers, tlc, graph, common
 from . import mp_common as M
 
 INV = ["PrefixOK", "LimitExact", "NoEarly413", "BoundedHold"]
@@ -88,40 +88,56 @@ def measure_hold(ctx, rnd):
                               "decoder holds back %d bytes (bound %d): the part is buffered instead of streamed" % (worst, bound))
             else:
                 ctx.nontriv(("hold", kind, lead))
-            # helper: how far behind the input is the file sink / the field limit?
-            fed = [0]
-            lag = [0]
-            M.Sink.written = 0
+            # helpers (sync and async): how far behind the input is the file sink / the field limit?
+            for api in ("parse_stream", "parse_async_stream"):
+                fed = [0]
+                lag = [0]
+                M.Sink.written = 0
 
-            def stream():
-                for c in chunks:
-                    fed[0] += len(c)
-                    yield c
+                def after_chunk():
                     consumed_content = max(0, min(fed[0], len(body) - len(delim) - 4) - (len(boundary) + 4 + len(hdr)))
                     if kind == "file":
                         lag[0] = max(lag[0], consumed_content - M.Sink.written)
-            if kind == "file":
-                try:
-                    parse_stream(stream(), boundary, "utf8", file_factory=M.Sink)
-                except BaseException as e:  # noqa
-                    ctx.violation(dict(case, api="parse_stream"), "ok", type(e).__name__, "helper raised on a large upload")
-                if lag[0] > bound:
-                    ctx.violation(dict(case, api="parse_stream"), "file sink at most %d bytes behind the input" % bound, {"lag": lag[0]},
-                                  "upload is written to the file sink only after being buffered (%d bytes behind)" % lag[0])
-            else:
-                limit = 100 * 1024
-                try:
-                    parse_stream(stream(), boundary, "utf8", file_factory=M.Sink, max_form_memory_size=limit)
-                    ctx.violation(dict(case, api="parse_stream", limit=limit), "413", "ok", "over-limit field accepted")
-                except HTTPException as e:
-                    if e.status_code != 413:
-                        ctx.violation(dict(case, api="parse_stream"), 413, e.status_code, "wrong status for an over-limit field")
-                    elif fed[0] > limit + 2 * CH + len(hdr) + 64:
-                        ctx.violation(dict(case, api="parse_stream", limit=limit), "rejected once the limit is passed (about %d bytes in)" % limit,
-                                      {"bytes_consumed_before_413": fed[0]},
-                                      "over-limit field rejected only after %d bytes were read (limit %d)" % (fed[0], limit))
-                except BaseException as e:  # noqa
-                    ctx.violation(dict(case, api="parse_stream"), "413", type(e).__name__, "helper raised %s" % type(e).__name__)
+
+                def stream():
+                    for c in chunks:
+                        fed[0] += len(c)
+                        yield c
+                        after_chunk()
+
+                async def astream():
+                    for c in chunks:
+                        fed[0] += len(c)
+                        yield c
+                        after_chunk()
+
+                def call(**kw):
+                    if api == "parse_stream":
+                        return parse_stream(stream(), boundary, "utf8", file_factory=M.Sink, **kw)
+                    from baize.multipart_helper import parse_async_stream
+                    return servers.loop().run_until_complete(parse_async_stream(astream(), boundary, "utf8", file_factory=M.Sink, **kw))
+                if kind == "file":
+                    try:
+                        call()
+                    except BaseException as e:  # noqa
+                        ctx.violation(dict(case, api=api), "ok", type(e).__name__, "helper raised on a large upload")
+                    if lag[0] > bound:
+                        ctx.violation(dict(case, api=api), "file sink at most %d bytes behind the input" % bound, {"lag": lag[0]},
+                                      "upload is written to the file sink only after being buffered (%d bytes behind)" % lag[0])
+                else:
+                    limit = 100 * 1024
+                    try:
+                        call(max_form_memory_size=limit)
+                        ctx.violation(dict(case, api=api, limit=limit), "413", "ok", "over-limit field accepted")
+                    except HTTPException as e:
+                        if e.status_code != 413:
+                            ctx.violation(dict(case, api=api), 413, e.status_code, "wrong status for an over-limit field")
+                        elif fed[0] > limit + 2 * CH + len(hdr) + 64:
+                            ctx.violation(dict(case, api=api, limit=limit), "rejected once the limit is passed (about %d bytes in)" % limit,
+                                          {"bytes_consumed_before_413": fed[0]},
+                                          "over-limit field rejected only after %d bytes were read (limit %d)" % (fed[0], limit))
+                    except BaseException as e:  # noqa
+                        ctx.violation(dict(case, api=api), "413", type(e).__name__, "helper raised %s" % type(e).__name__)
             ctx.count()
 
 
